@@ -101,6 +101,17 @@ func (g *gen) scalar() int {
 	return lib.Pick(g.r, g.ints)
 }
 
+// sel returns a scalar usable as index / key / bound inside the model (no opaque scalars).
+func (g *gen) sel() int {
+	switch g.r.Intn(8) {
+	case 0:
+		return lib.Pick(g.r, g.strs)
+	case 1:
+		return g.undef
+	}
+	return lib.Pick(g.r, g.ints)
+}
+
 // tree builds a private value (every intermediate handle hidden): nested arrays/maps/errors of fresh
 // containers, with sharing inside the tree. errContainers: allow error payloads that are containers.
 func (g *gen) tree(depth int, errContainers bool, pool *[]int) int {
@@ -144,27 +155,34 @@ func (g *gen) tree(depth int, errContainers bool, pool *[]int) int {
 	return h
 }
 
-// container builds a private array or map at the top.
+// topTree builds a fresh private array or map (its elements are private trees that may share
+// sub-structures); nothing else refers to the returned container.
 func (g *gen) topTree(errContainers bool) int {
 	var pool []int
-	for tries := 0; tries < 8; tries++ {
-		h := g.tree(3, errContainers, &pool)
-		switch g.m.regs[h].(type) {
-		case *tengo.Array, *tengo.Map:
-			if !g.m.private[h] {
-				continue
-			}
-			return h
+	if g.r.Bool() {
+		n := 1 + g.r.Intn(3)
+		el := make([]int, n)
+		for i := range el {
+			el[i] = g.tree(2, errContainers, &pool)
 		}
+		g.do(opRec{K: "arr", A: el, Cap: n + g.r.Intn(3), Hidden: true})
+		return g.last()
 	}
-	g.do(opRec{K: "arr", A: []int{g.scalar(), g.scalar()}, Cap: 3, Hidden: true})
+	n := 1 + g.r.Intn(3)
+	var keys []string
+	var el []int
+	for i := 0; i < n; i++ {
+		keys = append(keys, keyNames[i])
+		el = append(el, g.tree(2, errContainers, &pool))
+	}
+	g.do(opRec{K: "map", A: el, Keys: keys, Hidden: true})
 	return g.last()
 }
 
 // selectorFor picks a selector handle that fits the container (mostly).
 func (g *gen) selectorFor(o tengo.Object) int {
 	if g.r.Chance(1, 8) {
-		return g.scalar()
+		return g.sel()
 	}
 	switch v := o.(type) {
 	case *tengo.Array:
@@ -235,8 +253,8 @@ func (g *gen) step() {
 	case 6: // element read handing out a sub-object
 		if h, ok := g.pick(isContainer); ok {
 			g.do(opRec{K: "get", A: []int{h, g.selectorFor(m.regs[h])}, Flag: flag})
-		} else if h, ok := g.pick(modelled); ok {
-			g.do(opRec{K: "get", A: []int{h, g.scalar()}, Flag: flag})
+		} else {
+			g.do(opRec{K: "get", A: []int{lib.Pick(g.r, []int{g.undef, g.ints[0]}), g.sel()}, Flag: flag})
 		}
 	case 7: // selector assignment, depth 1..3
 		h, ok := g.pick(isContainer)
@@ -297,7 +315,7 @@ func (g *gen) step() {
 				}
 			}
 			if g.r.Chance(1, 12) && len(a) > 1 {
-				a[1] = g.scalar()
+				a[1] = g.sel()
 			}
 			g.do(opRec{K: "splice", A: a})
 		}
@@ -308,14 +326,14 @@ func (g *gen) step() {
 			}
 			k := g.strs[g.r.Intn(3)]
 			if g.r.Chance(1, 10) {
-				k = g.scalar()
+				k = g.sel()
 			}
 			g.do(opRec{K: "delete", A: []int{h, k}})
 		}
 	case 11:
 		if h, ok := g.pick(isArrLike); ok || g.r.Chance(1, 8) {
 			if !ok {
-				h, _ = g.pick(modelled)
+				h, _ = g.pick(func(o tengo.Object) bool { _, isStr := o.(*tengo.String); return modelled(o) && !isStr })
 			}
 			lo, hi := g.undef, g.undef
 			if g.r.Bool() {
@@ -325,7 +343,7 @@ func (g *gen) step() {
 				hi = lib.Pick(g.r, g.ints)
 			}
 			if g.r.Chance(1, 12) {
-				lo = g.scalar()
+				lo = g.sel()
 			}
 			g.do(opRec{K: "slice", A: []int{h, lo, hi}})
 		}
